@@ -78,6 +78,13 @@ CLAIMED = {
         "Level reported as 'other' while the two R2.floor findings (pad target lowered below 1200 by the congestion / amplification budget) are open; the numeric 3x inequality over a schedule is decided only through the plumbing.",
         "DESIGN.md#c13",
     ),
+    "C08": (
+        "other",
+        "who-may-write analysis of the sent-packet ledger, bytes_in_flight and per-packet accounting fields over the whole package; pairing analysis of every removal from the ledger with exactly one congestion callback (three idioms) using lexical guards, CFG dominance and post-dominance; sibling comparison of all controllers registered through register_congestion_control; abstract classification of every congestion_window assignment (floor / non-decreasing / initial / reduction); CFG reachability for the probe allowance; constant folding of K_MINIMUM_WINDOW and the frame-type exemption sets",
+        "Decides on all paths the accounting discipline that 'bytes in flight equal the tracked in-flight packets, never negative, frames reported once, window never below two datagrams' rests on: who may change the ledger, that each removal is reported to the controller exactly once for in-flight packets (and to each delivery handler once), that Reno and CUBIC update bytes_in_flight identically on every path of the four callbacks, that every loss response is floored, and that the congestion budget and the single probe datagram are plumbed into the packet builder.",
+        "Numeric window evolution is declined; CUBIC's interpolation formulas and `= self._W_est` are listed in the evidence as not proved rather than claimed.",
+        "DESIGN.md#c08",
+    ),
 }
 
 NOT_APPLICABLE = {
